@@ -13,6 +13,7 @@ import Mathlib.Algebra.BigOperators.Group.List.Basic
 import Mathlib.Tactic.FieldSimp
 import Mathlib.Tactic.Ring
 import Mathlib.Tactic.Linarith
+import PhotVerif.Gen.ForwardTable
 
 namespace PhotVerif.C19
 open PhotVerif.Model.Profile PhotVerif.Model
@@ -167,5 +168,13 @@ theorem monoPrefix_maximal (p : List Rat) :
 
 -- non-vacuity: 1 < 3 < 6, then 6 ≥ 5: three samples are kept (the old code kept two)
 example : monoPrefix [1, 3, 6, 5, 9] = [1, 3, 6] := by decide +kernel
+
+/-! ### no delegating call in this property's modules drops an argument it holds (table regenerated from the source) -/
+
+/-- TABLE OBLIGATION: in the modules of this property, every call that delegates to another photutils function, method or
+    constructor passes on each value the caller holds under the callee's own parameter name (its own parameters, `self.<name>`
+    attributes set in `__init__`) - dropped `subpixels`, `mask`, `connectivity`, `include_localbkg` ... keywords were a recurring
+    kind of seeded change -/
+theorem no_dropped_arguments : Gen.ForwardTable.droppedIn Gen.ForwardTable.scopeC19 = [] := by decide
 
 end PhotVerif.C19
